@@ -1,7 +1,11 @@
 //! Proof harnesses, one module per property.
+#[cfg(all(verif_check, not(kani)))]
+#[allow(unused_imports)]
+use crate::kani;
 
 /// Standard harness wrapper: unwinding bound + the two stubs every harness needs
 /// (DESIGN.md 1.2 items 1 and 2).
+#[cfg(kani)]
 macro_rules! harness {
     ($(#[$m:meta])* fn $name:ident() unwind $unwind:literal $body:block) => {
         $(#[$m])*
@@ -12,9 +16,17 @@ macro_rules! harness {
         pub fn $name() $body
     };
 }
+#[cfg(not(kani))]
+macro_rules! harness {
+    ($(#[$m:meta])* fn $name:ident() unwind $unwind:literal $body:block) => {
+        $(#[$m])*
+        pub fn $name() $body
+    };
+}
 
 /// Harness wrapper with the LMS layer replaced by its contract (crate::contracts): used where the
 /// key shape is symbolic and real trees (up to 2^25 leaves) are out of reach.
+#[cfg(kani)]
 macro_rules! harness_lms_contract {
     ($(#[$m:meta])* fn $name:ident() unwind $unwind:literal $body:block) => {
         $(#[$m])*
@@ -27,8 +39,16 @@ macro_rules! harness_lms_contract {
         pub fn $name() $body
     };
 }
+#[cfg(not(kani))]
+macro_rules! harness_lms_contract {
+    ($(#[$m:meta])* fn $name:ident() unwind $unwind:literal $body:block) => {
+        $(#[$m])*
+        pub fn $name() $body
+    };
+}
 
 /// Harness wrapper with one extra stub given as (original, replacement).
+#[cfg(kani)]
 macro_rules! harness_stub {
     ($(#[$m:meta])* fn $name:ident() unwind $unwind:literal stub($orig:path, $repl:path) $body:block) => {
         $(#[$m])*
@@ -40,6 +60,13 @@ macro_rules! harness_stub {
         pub fn $name() $body
     };
 }
+#[cfg(not(kani))]
+macro_rules! harness_stub {
+    ($(#[$m:meta])* fn $name:ident() unwind $unwind:literal stub($orig:path, $repl:path) $body:block) => {
+        $(#[$m])*
+        pub fn $name() $body
+    };
+}
 
 pub mod c01;
 pub mod c02;
@@ -47,9 +74,12 @@ pub mod c04;
 pub mod c07;
 pub mod c08;
 pub mod c08d;
+pub mod c14;
 pub mod c15;
 pub mod c16;
 pub mod c06;
+pub mod c09;
+pub mod c10;
 pub mod c12;
 #[cfg(verif_levels = "8")]
 pub mod c13;
